@@ -549,7 +549,7 @@ pub fn supervisor_main(check: &dyn Check, tier: Tier, seed: u64) -> i32 {
         eprintln!("machinery failure in prepare: {}", e);
         return 2;
     }
-    let stall = Duration::from_secs(tier.pick(60, 600));
+    let stall = Duration::from_secs(tier.pick(120, 600));
     let (mut total, crashes, machinery_fail) = run_workers(check, &exe, tier, seed, stall);
     if machinery_fail {
         eprintln!("machinery failure: a worker could not start");
